@@ -549,6 +549,60 @@ def bulk_payloads(a):
     return out
 
 
+def many_examples(a):
+    """(child) one shard holding well over a thousand examples (a large examples_per_shard), with variable-length text and byte strings
+    whose lengths *grow* along the shard and numeric values that change magnitude: every example read equals the one written, whatever
+    its position in the shard."""
+    import shutil
+    sp.sedpack(rust=True)
+    import numpy as np
+    from sedpack.io import Attribute, Dataset
+    out = []
+    for c in a["cases"]:
+        root = c["root"]; shutil.rmtree(root, ignore_errors=True)
+        r = {"case": {k: c[k] for k in c if k != "root"}, "runs": []}
+        try:
+            with_text = c["fmt"] != "fb"                       # (fb has no variable-length text attributes)
+            attrs = [Attribute(name="id", dtype="int64", shape=()), Attribute(name="x", dtype="float64", shape=(2,))]
+            if with_text:
+                attrs += [Attribute(name="s", dtype="str", shape=()), Attribute(name="b", dtype="bytes", shape=())]
+            ds = sp.mk(root, fmt=c["fmt"], comp=c["comp"], eps=c["eps"], attrs=attrs)
+            want = []
+            with ds.filler() as f:
+                for i in range(c["n"]):
+                    sv = ("identifier-%d-é" % i) * (1 + i // 300)
+                    bv = (b"\xff\x01" + str(i).encode()) * (1 + i // 250)
+                    xv = np.array([i * 1e-300 if i % 2 else i * 1e300, -float(i)], dtype=np.float64)
+                    vals = {"id": np.int64(i), "x": xv}
+                    if with_text: vals.update({"s": sv, "b": bv})
+                    f.write_example(values=vals, split="train")
+                    want.append([i, xv.tobytes().hex(), sv if with_text else None, bv.hex() if with_text else None])
+            ds = Dataset(root)
+            r["shards"] = [si.number_of_examples for si in ds.shard_info_iterator("train")]
+            def canon(e):
+                def txt(v, as_bytes):
+                    if isinstance(v, np.ndarray): v = v.item() if v.shape == () else v.reshape(-1)[0]
+                    if isinstance(v, str): v = v.encode("utf-8")
+                    v = bytes(v)
+                    return v.hex() if as_bytes else v.decode("utf-8", "replace")
+                return [int(np.asarray(e["id"]).reshape(-1)[0]), np.ascontiguousarray(np.asarray(e["x"], dtype=np.float64)).tobytes().hex(),
+                        txt(e["s"], False) if with_text else None, txt(e["b"], True) if with_text else None]
+            for rd in c["readers"]:
+                try:
+                    got = [canon(e) for e in _read_all(ds, rd, 2)]
+                    bad = next((i for i, (g, w) in enumerate(zip(got, want)) if g != w), None)
+                    r["runs"].append({"reader": rd, "same": got == want, "n": len(got), "first_diff": bad,
+                                      "diff": None if bad is None else {"want": [str(x)[:60] for x in want[bad]], "got": [str(x)[:60] for x in got[bad]]}})
+                except BaseException as e:  # noqa: BLE001
+                    r["runs"].append({"reader": rd, "error": f"{type(e).__name__}: {str(e)[:160]}"})
+            r["want_n"] = len(want)
+        except BaseException as e:  # noqa: BLE001
+            r["error"] = f"{type(e).__name__}: {str(e)[:200]}"
+        shutil.rmtree(root, ignore_errors=True)
+        out.append(r)
+    return out
+
+
 def swap_probe(_):
     """(child) the real save_numpy_vector_as_bytearray under every byte-order tag x claimed sys.byteorder."""
     sp.sedpack()
@@ -688,6 +742,21 @@ def run(ctx):
                            f"fb/{c['comp'] or '-'} reader {x['reader']}: examples holding {c['size'] >> 20} MiB arrays (random / all-zero / constant; shards above 16 MiB) "
                            + (f"raised {x['error']}" if "error" in x else f"read back differently (first difference at example {x['first_diff']}, {x['n']} of {b['want_n']} examples)"),
                            {"bulk_case": c, "run": x})
+    # ---- counts: one shard with well over a thousand examples
+    mcases = [{"root": str(ctx.scratch / f"c01_many_{i}"), "fmt": fmt, "comp": comp, "eps": 5000, "n": ctx.pick(1300, 4200),
+               "readers": ["sync", "concurrent"] + (["rust"] if fmt == "fb" else []) + (["tf"] if ctx.thorough else [])}
+              for i, (fmt, comp) in enumerate([("npz", ""), ("npz", "ZIP"), ("fb", "LZ4"), ("tfrec", "")][: ctx.pick(3, 4)] if not ctx.thorough else [("npz", ""), ("npz", "ZIP"), ("fb", "LZ4"), ("tfrec", "")])]
+    many = child.call("harness.checks.c01", "many_examples", {"cases": mcases}, timeout=1800) if not ctx.replay else []
+    for b in many:
+        c = b["case"]
+        if "error" in b:
+            ctx.report({"fmt": c["fmt"], "kind": "many-create"}, f"{c['fmt']}/{c['comp'] or '-'}: writing {c['n']} examples into one shard failed: {b['error']}", {"many_case": c}); continue
+        for x in b["runs"]:
+            if "error" in x or not x["same"]:
+                ctx.report({"fmt": c["fmt"], "kind": "many", "reader": x["reader"]},
+                           f"{c['fmt']}/{c['comp'] or '-'} reader {x['reader']}: a shard of {c['n']} examples (text and byte strings growing along the shard) "
+                           + (f"raised {x['error']}" if "error" in x else f"read back differently from example {x['first_diff']} on ({x['n']} of {b['want_n']} examples): {x['diff']}"),
+                           {"many_case": c, "run": x})
     # ---- correspondence (a): byte vectors vs M-CODEC
     reqs, owners = [], []
     for r in results:
@@ -768,5 +837,5 @@ def run(ctx):
         "samples": [{"case": r["case"], "written": r.get("written"), "mismatches": len(r["mismatches"])} for r in results[:3]],
         "input_distribution": {"datasets": len(results), "elements_compared": sum(r.get("elements", 0) for r in results), "presentations": dict(pres), "patterns": dict(pats),
                                "reader_runs": dict(rdr), "reader_errors": dict(rerrs), "rejected_writes_by_presentation": dict(rej), "mismatches": nmis,
-                               "fb_byte_vectors_checked": len(live), "bulk_payload_runs": sum(len(b.get("runs", [])) for b in bulk), "caller_buffers_overwritten_after_write": sum(r.get("scrambled", 0) for r in results), "max_secs_per_dataset": max([r.get("secs", 0) for r in results] or [0])},
+                               "fb_byte_vectors_checked": len(live), "bulk_payload_runs": sum(len(b.get("runs", [])) for b in bulk), "many_example_shard_runs": sum(len(b.get("runs", [])) for b in many), "caller_buffers_overwritten_after_write": sum(r.get("scrambled", 0) for r in results), "max_secs_per_dataset": max([r.get("secs", 0) for r in results] or [0])},
     })
